@@ -33,7 +33,7 @@ ResClauses(c, k) ==
          <<tag \o "hydrogen-or-charge-change-differs-from-the-rule",
               TotalDeltaH(I) = TotalDeltaH(c.rc) /\ TotalDeltaCh(I) = TotalDeltaCh(c.rc) /\ SameElements(I)>>,
          <<tag \o "changed-bonds-differ-from-the-rule", SameChanges(I, c.rc)>>,
-         <<tag \o "not-the-rule-applied-at-its-match",
+         <<"note:C03Cases:" \o tag \o "not-node-for-node-the-rule-applied-at-the-logged-match",
               (c.mode = "implicit" /\ Len(r.m) = c.rc.n /\ \A v \in 1..c.host.n : c.host.present[v] = 1)
                  => SameITS(I, Apply([n |-> c.host.n, t |-> c.host.t, adj |-> c.host.adj], c.rc, r.m))>> >>
 
